@@ -1,6 +1,8 @@
 // C08: RequestToJoin delivered to real LocalNodes in every neighbour-pointer state: nil predecessor
 // (after failure detection, with and without a delivered Notify), predecessor == self, joiner ids
-// adjacent to / equal to existing ids, busy (Transferring) nodes.
+// adjacent to / equal to existing ids, busy (Transferring) nodes; plus the sole survivor of a two-node ring whose
+// stabilize round stores the collapsed successor list inside the key transfer of a join request (two real
+// goroutines, forced interleaving: survivorJoin).
 package main
 
 import (
@@ -256,10 +258,15 @@ func main() {
 				}
 				var res string
 				if race {
-					if rng.Chance(60) {
+					// only the first request of the case races with the failure detection (afterwards the predecessor
+					// pointer is nil already): make that one count
+					if k == 0 || rng.Chance(60) {
 						// a joiner in the dead node's range, i.e. one the racing node is responsible for
 						j = (victimID + 1 + uint64(rng.Intn(3))) % ringh.M
-						if rng.Chance(60) {
+						if gap := (raceX + ringh.M - victimID) % ringh.M; k == 0 && gap >= 2 && gap <= 3 {
+							j = (victimID + 1 + uint64(rng.Intn(int(gap)-1))) % ringh.M // strictly between the two
+						}
+						if k == 0 || rng.Chance(60) {
 							// asked directly at the racing node: the request is not routed through the dead node
 							// (whose failure nobody has detected yet), so it does reach the hand-off
 							target = raceX
